@@ -747,6 +747,62 @@ func init() {
 		f.in.note("codec.Codec.MarshalInto: packer content havoc'd, arbitrary error (serialised bytes not modelled)")
 		return []Val{Sc{f.in.D.fresh("marshalerr", SErr)}}
 	}
+	// canoto varint size: 1 for 0, else ceil(bitlen/7)
+	sizeUint := func(v Term) Term {
+		r := IntLit(10)
+		for k := 9; k >= 1; k-- {
+			r = Ite(Lt(v, BigLit(pow2(uint(7*k)))), IntLit(int64(k)), r)
+		}
+		return r
+	}
+	externs["github.com/StephenButtolph/canoto.SizeUint"] = func(f *Frame, call *ast.CallExpr, recv Val, args []Val, st *State) []Val {
+		f.in.note("canoto.SizeUint modelled exactly (varint length)")
+		return []Val{Sc{sizeUint(args[0].(Sc).T)}}
+	}
+	externs["github.com/StephenButtolph/canoto.SizeBytes"] = func(f *Frame, call *ast.CallExpr, recv Val, args []Val, st *State) []Val {
+		var ln Term
+		switch v := args[0].(type) {
+		case SliceV:
+			ln = v.Len
+		case Sc:
+			ln = App("slen", SInt, v.T)
+		default:
+			f.in.unsupported(call.Pos(), "canoto.SizeBytes of %T", args[0])
+		}
+		f.in.note("canoto.SizeBytes modelled exactly (varint length of len + len)")
+		return []Val{Sc{Add(sizeUint(ln), ln)}}
+	}
+	// avalanchego set.Set[T] is map[T]struct{}: Add / Contains / Len on the map model
+	setMap := func(f *Frame, recv Val, st *State) (MapV, bool) {
+		if p, ok := recv.(PtrV); ok {
+			recv = f.in.load(st, p.To, f)
+		}
+		m, ok := recv.(MapV)
+		return m, ok
+	}
+	externs["github.com/ava-labs/avalanchego/utils/set.(*Set).Add"] = func(f *Frame, call *ast.CallExpr, recv Val, args []Val, st *State) []Val {
+		m, ok := setMap(f, recv, st)
+		if !ok {
+			f.in.unsupported(call.Pos(), "set.Set receiver %T", recv)
+		}
+		mt := m.M.Typ
+		if len(call.Args) != 1 || call.Ellipsis.IsValid() {
+			f.in.unsupported(call.Pos(), "set.Set.Add with other than one element")
+		}
+		elem := f.evalAssignable(call.Args[0], mt.Underlying().(*types.Map).Key(), st)
+		f.mapStore(m, mt, elem, f.in.zeroVal(mt.Underlying().(*types.Map).Elem(), f), st)
+		f.in.note("set.Set.Add/Contains modelled on the map model (set.Set[T] is map[T]struct{})")
+		return nil
+	}
+	externs["github.com/ava-labs/avalanchego/utils/set.(Set).Contains"] = func(f *Frame, call *ast.CallExpr, recv Val, args []Val, st *State) []Val {
+		m, ok := setMap(f, recv, st)
+		if !ok {
+			f.in.unsupported(call.Pos(), "set.Set receiver %T", recv)
+		}
+		mt := m.M.Typ.Underlying().(*types.Map)
+		mc := f.in.load(st, m.M, f).(MapC)
+		return []Val{Sc{Select(mc.Has, f.in.freeze(args[0], mt.Key(), st, f))}}
+	}
 	externs["time.(Duration).Nanoseconds"] = func(f *Frame, call *ast.CallExpr, recv Val, args []Val, st *State) []Val {
 		return []Val{recv}
 	}
